@@ -350,6 +350,31 @@ def check_colour_transfer(P, ctx):
     ctx.floor(rule, 2)
 
 
+def check_assign_rebuilds(P, ctx, T, clear, insert, rule):
+    """assign clears the target on every path and then inserts (key, get(obj, key)) for every key the source iterates"""
+    fn = P.fn(P.slot(T, 'Assign', 'assign'))
+    g = P.cfg(fn)
+    ctx.fn(fn)
+    N = util.Norm(P, fn, inline=False)
+    cl = [n for (n, c) in g.nodes_calling(clear) if N.canon(c[2][0]) == ('param', 0)]
+    ok = len(cl) == 1 and g.must_pass(g.exit, [cl[0]['id']])
+    ctx.check(ok, rule, fn['name'] + ':clears-always', site(fn), 'the previous bindings are cleared on every path, including when the source is empty')
+    ins = [(n, c) for (n, c) in g.nodes_calling(insert)]
+    ok = len(ins) == 1
+    if ok:
+        n, c = ins[0]
+        k = N.canon(c[2][1])
+        v = N.canon(c[2][2])
+        ok = k[0] == 'local' and v == ir.canon(('call', ('func', 'get'), (('param', 'obj', 1), ('local', k[1], None)))) and N.canon(c[2][0]) == ('param', 0)
+        # k is the foreach variable over obj
+        conds = [x for x in g.live() if x['kind'] == 'cond' and N.canon(x['expr']) == ir.canon(('bin', '!=', ('local', k[1], None), ('global', 'Terminal')))]
+        ok = ok and len(conds) == 1 and g.must_pass(n['id'], through_edges=[(conds[0]['id'], True)]) and g.must_pass(conds[0]['id'], [cl[0]['id']] if cl else [])
+        steps = [x for x in g.live() if x.get('loop_inc')]
+        ok = ok and len(steps) == 1 and g.must_pass(steps[0]['id'], [n['id']], start=conds[0]['id'])
+    ctx.check(ok, rule, fn['name'] + ':reinserts-all', site(fn), 'every key the source yields is inserted with the source\'s value for it, after the clear')
+    ctx.floor(rule, 2)
+
+
 def run(ctx, load):
     P = load(UNITS, 'default')
     ctx.stats['units'] = set(UNITS)
@@ -360,6 +385,7 @@ def run(ctx, load):
     check_miss_and_counts(P, ctx)
     check_layout(P, ctx)
     check_colour_transfer(P, ctx)
+    check_assign_rebuilds(P, ctx, 'Tree', 'Tree_Clear', 'Tree_Set', 'C03.assign-rebuilds')
     if ctx.tier == 'thorough':
         Pc = load(UNITS, 'ndebug')
         ctx.stats['configs'].append('ndebug')
